@@ -204,9 +204,8 @@ def run(ctx):
      ctx.violation('R4', 'Stringifier.join_items:width', ji.where, f'JoinableStringList is built with {kw}'))
     fl = S.function('format_line')
     src = ast.unparse(fl.node)
-    ok = X.has(src, "line = str(self.join_items(items, sep=''))") and X.has(src, 'if no_wrap:')
-    (ctx.judge('R4', 'format_line wraps unless no_wrap') if ok else
-     ctx.violation('R4', 'Stringifier.format_line', fl.where, 'format_line does not route its items through join_items'))
+    ctx.wired('R4', 'Stringifier.format_line', fl.where, src, ["line = str(self.join_items(items, sep=''))", 'if no_wrap:'],
+              'format_line does not route its items through join_items')
     for mem in G.members.values():
         if mem.kind != 'func':
             continue
